@@ -10,7 +10,7 @@ import (
 // Knobs bound the size of a generated specification and select the constructs in scope.
 // Level: 1 apps only; 2 + types/tables; 3 + enums/aliases/unions; 4 + simple endpoints and statements;
 // 5 + REST; 6 + mixins/events/subscriptions; 7 + annotations (every attribute form) and escaped names;
-// 8 + collector blocks (`.. * <- *:`).
+// 8 + collector blocks (`.. * <- *:`); 9 + in-place tuples (`field <:` + indented fields, nested, array form).
 type Knobs struct {
 	Level     int
 	MaxApps   int
@@ -21,7 +21,7 @@ type Knobs struct {
 }
 
 func DefaultKnobs() Knobs {
-	return Knobs{Level: 8, MaxApps: 4, MaxMember: 5, MaxFields: 5, StmtDepth: 3, MaxStmts: 4}
+	return Knobs{Level: 9, MaxApps: 4, MaxMember: 5, MaxFields: 5, StmtDepth: 3, MaxStmts: 4}
 }
 
 type appInfo struct {
@@ -408,6 +408,13 @@ func (x *g) tableMember(name string, table bool) Member {
 		f := x.field(x.fieldName(used), table)
 		m.Items = append(m.Items, TableItem{Field: &f})
 	}
+	if x.k.Level >= 9 && x.r.Chance(1, 2) {
+		for i, nt := 0, 1+x.r.Intn(2); i < nt; i++ {
+			t := x.inTuple(used, 2, table)
+			pos := x.r.Intn(len(m.Items) + 1)
+			m.Items = append(m.Items[:pos], append([]TableItem{{Tuple: t}}, m.Items[pos:]...)...)
+		}
+	}
 	for _, a := range x.annos(1, 5) {
 		a := a
 		pos := x.r.Intn(len(m.Items) + 1)
@@ -415,6 +422,29 @@ func (x *g) tableMember(name string, table bool) Member {
 	}
 	return m
 }
+
+// inTuple: `name <:` + 1-3 nested fields, some of them in-place tuples themselves (depth levels left)
+func (x *g) inTuple(used map[string]bool, depth int, table bool) *InTuple {
+	name := x.fieldName(used)
+	if x.r.Chance(1, 4) {
+		name = x.fresh(inplaceNames, used)
+	}
+	t := &InTuple{Name: name, Array: x.r.Chance(1, 3)}
+	inner := map[string]bool{}
+	for i, n := 0, 1+x.r.Intn(3); i < n; i++ {
+		if depth > 0 && x.r.Chance(1, 3) {
+			t.Fields = append(t.Fields, NField{Tuple: x.inTuple(inner, depth-1, table)})
+		} else {
+			f := x.field(x.fieldName(inner), false)
+			f.Array, f.Doc = false, nil
+			t.Fields = append(t.Fields, NField{Field: &f})
+		}
+	}
+	return t
+}
+
+// names that must be escaped on the line, some with a literal percent sign that survives unescaping
+var inplaceNames = []string{"m n", "a%41b", "rate 100%", "geo/pos", "x%2Fy", "caf\xc3\xa9"}
 
 func (x *g) restNode(depth int, usedPaths map[string]bool) *RestNode {
 	return x.restNodeAt(depth, usedPaths, "")
